@@ -10,11 +10,8 @@ Theorem C17_selection_appends : forall root ps m pre,
 Proof. exact select_frame. Qed.
 Print Assumptions C17_selection_appends.
 
-(* every editor of the dispatch model appends the encoding of its tree result, or fails and appends nothing *)
-Theorem C17_editors_append : forall buf r,
-  append_enc buf r = match r with Ok v => Ok (buf ++ enc v) | Err e => Err e | Panic => Panic end.
-Proof. exact append_enc_frame. Qed.
-Print Assumptions C17_editors_append.
+(* (what an editor's error return leaves in the buffer cannot be said about a model of type `res (list N)`: see
+   C17_errors_append_nothing and C17_editors_leave_prefix_on_any_input below, about the state functions) *)
 
 (* the selector on byte positions (SelWalk.v): what it appends for an encoding does not depend on the buffer *)
 From JB Require Import SelWalk SelWalkProofs.
@@ -105,6 +102,52 @@ Theorem C17_editors_append_on_any_input :
 Proof. exact editors_append_on_any_input. Qed.
 Print Assumptions C17_editors_append_on_any_input.
 
+(* ---- the same about the STATE functions (BufSt.v: `f_st args buf` = (the buffer as the call leaves it, the outcome);
+   the `_w` functions above are their views, which forget the buffer of a failed call).  `framed`: on any input, in all
+   three outcomes, the buffer as left is the buffer on entry followed by what the call leaves when started on the empty
+   buffer, and the outcome does not depend on the buffer. *)
+From JB Require Import BufSt EditStProofs.
+Theorem C17_editors_leave_prefix_on_any_input :
+  (forall l r, framed (concat_st l r)) /\
+  (forall bs name, framed (delete_by_name_st bs name)) /\
+  (forall bs i, framed (delete_by_index_st bs i)) /\
+  (forall bs pos nv, framed (array_insert_st bs pos nv)) /\
+  (forall items, framed (build_array_st items)) /\
+  (forall keys items, framed (build_object_st keys items)) /\
+  (forall bs key nv upd, framed (object_insert_st bs key nv upd)) /\
+  (forall bs ks, framed (object_delete_st bs ks)) /\
+  (forall bs ks, framed (object_pick_st bs ks)) /\
+  (forall bs, framed (strip_nulls_st bs)) /\
+  (forall bs ks, framed (delete_by_keypath_st bs ks)) /\
+  (forall bs, framed (SetWalk.array_distinct_st bs)) /\
+  (forall l r, framed (SetWalk.array_intersection_st l r)) /\
+  (forall l r, framed (SetWalk.array_except_st l r)).
+Proof. exact editors_leave_prefix_on_any_input. Qed.
+Print Assumptions C17_editors_leave_prefix_on_any_input.
+
+(* "When the function returns an error for a documented reason nothing is appended": for ANY error return (documented
+   or not: truncated or corrupted input, text that does not parse), any input bytes and any buffer content, the buffer
+   after the call is the buffer before it.  `err_leaves m`: snd (m buf) = Err e -> fst (m buf) = buf (and the same at a
+   panic).  Twelve editors; build_array / build_object are the exception, next theorem. *)
+Theorem C17_errors_append_nothing :
+  (forall l r, err_leaves (concat_st l r)) /\
+  (forall bs name, err_leaves (delete_by_name_st bs name)) /\
+  (forall bs i, err_leaves (delete_by_index_st bs i)) /\
+  (forall bs pos nv, err_leaves (array_insert_st bs pos nv)) /\
+  (forall bs key nv upd, err_leaves (object_insert_st bs key nv upd)) /\
+  (forall bs ks, err_leaves (object_delete_st bs ks)) /\
+  (forall bs ks, err_leaves (object_pick_st bs ks)) /\
+  (forall bs, err_leaves (strip_nulls_st bs)) /\
+  (forall bs ks, err_leaves (delete_by_keypath_st bs ks)) /\
+  (forall bs, err_leaves (SetWalk.array_distinct_st bs)) /\
+  (forall l r, err_leaves (SetWalk.array_intersection_st l r)) /\
+  (forall l r, err_leaves (SetWalk.array_except_st l r)).
+Proof. exact editors_errors_leave_buffer_on_any_input. Qed.
+Print Assumptions C17_errors_append_nothing.
+
+(* on encodings the two together, with the appended bytes named: EditStEnc.v / Props/C06.v
+   (C06_errors_leave_the_buffer_unchanged, C06_success_buffer_state) *)
+
 (* build_array / build_object write into the caller's buffer themselves and can fail half way (an item with a bad
    header): the buffer AS THE FUNCTION LEAVES IT, error or not, still has the caller's bytes as an untouched prefix *)
 Theorem C17_build_array_object_leave_prefix : forall buf,
@@ -112,6 +155,19 @@ Theorem C17_build_array_object_leave_prefix : forall buf,
   (forall keys items, build_object_st keys items buf = (buf ++ fst (build_object_st keys items []), snd (build_object_st keys items []))).
 Proof. intros buf. split; intros; [apply build_array_st_frame|apply build_object_st_frame]. Qed.
 Print Assumptions C17_build_array_object_leave_prefix.
+(* and what they leave behind it when they fail: the reserved header slot and the entry words written so far (so an
+   error return of these two DOES append: at least four bytes) *)
+Theorem C17_build_array_object_error_appends : forall buf e,
+  (forall items, snd (build_array_st items buf) = Err e ->
+     fst (build_array_st items buf) = buf ++ repeat 0 4 ++ ba_entries items /\ fst (build_array_st items buf) <> buf) /\
+  (forall keys items, snd (build_object_st keys items buf) = Err e ->
+     fst (build_object_st keys items buf) = buf ++ repeat 0 4 ++ bo_entries (assoc_of_list (combine keys items))).
+Proof.
+  intros buf e. split; intros.
+  - split; [apply (build_array_st_error_leaves items buf e)|apply (build_array_st_error_appends items buf e)]; assumption.
+  - apply (build_object_st_error_leaves keys items buf e); assumption.
+Qed.
+Print Assumptions C17_build_array_object_error_appends.
 
 (* not vacuous: an entry that is NOT entry_okb (a raw entry claiming 100 bytes for 2, a nested object whose returned
    length 13 is not its true length 16): what is written differs from the layout, and is still only appended; and a
